@@ -264,8 +264,20 @@ def xTfcExact (D : DSt) (k : Key) : Bool :=
   onNode D k fun n => !n.ver ||
     decide (n.tfc = n.deps.foldr (fun e acc => Qbice.Engine.unionSorted (D.front e.key) acc) [])
 
+/-- NOT part of the proved invariant (dirty edges are conservative: the invariant allows spurious ones): a
+    node verified in this epoch has no dirty recorded edge, except to a firewall / projection verified in
+    this epoch (same-epoch propagation from a callee that changed while the node was being repaired: the
+    edge was clean when its check began, so the clean path leaves it) -/
+def xVerClean (D : DSt) (k : Key) : Bool :=
+  onNode D k fun n => !n.ver || n.deps.all fun e => !n.dirty.contains e.key ||
+    ((decide (D.kindOf e.key = some .firewall) || decide (D.kindOf e.key = some .projection)) &&
+      (match D.node e.key with
+       | some nd => nd.ver
+       | none => false))
+
 /-- expected but unproved checks -/
-def extraClauses (D : DSt) : List (String × (Key → Bool)) := [("x-tfcExact", xTfcExact D)]
+def extraClauses (D : DSt) : List (String × (Key → Bool)) :=
+  [("x-tfcExact", xTfcExact D), ("x-verClean", xVerClean D)]
 
 def firstFailExtra (D : DSt) : Option (String × Key) :=
   (extraClauses D).findSome? fun c =>
